@@ -34,8 +34,8 @@ Definition skeys_contains (k : pykey) (es : ents) : res bool :=
          end
   end.
 
-(* _TensorDictKeysView.__contains__ (_td.py:4552) on the unravelled key.  leaves_only is never consulted: the
-   `isinstance(key, str)` branch that would do so is dead because _unravel_key_to_tuple always returns a tuple (S7). *)
+(* _TensorDictKeysView.__contains__ (_td.py:4552) on the unravelled key, for a view that is not leaves_only
+   (what rename_key_, setdefault and TensorDictBase.__contains__ consult). *)
 Definition view_contains_path (inc : bool) (p : list string) (es : ents) : res bool :=
   match p with
   | [] => Raise EOther
@@ -65,10 +65,42 @@ Definition view_contains_path (inc : bool) (p : list string) (es : ents) : res b
 Definition view_contains (inc : bool) (k : pykey) (es : ents) : res bool :=
   view_contains_path inc (cpp_unravel_to_tuple k) es.
 
+(* the same walk for any view: once the entry is located, a leaves_only view answers with the filter its __iter__
+   applies, is_leaf(entry_class(key)) (fix of S7: the located entry used to be reported whatever leaves_only said) *)
+Definition entry_listed (lo nt : bool) (k : string) (es : ents) : bool :=
+  match aget k es with Some v => negb lo || is_leafb nt v | None => false end.
+
+Definition view_contains_lo (inc lo nt : bool) (p : list string) (es : ents) : res bool :=
+  match p with
+  | [] => Raise EOther
+  | [k] => Ok (entry_listed lo nt k es)
+  | k :: (_ :: _) as rest =>
+      if inc then
+        match aget k es with
+        | None => Ok false
+        | Some (Leaf LT _) => Ok false
+        | Some (Leaf LS _) => Raise EUnmodelled
+        | Some (Node sub) =>
+            match rest with
+            | [k1] => Ok (entry_listed lo nt k1 sub)
+            | _ =>
+                match get_tuple (removelast rest) sub true with
+                | GDef => Ok false
+                | GVal (Node s2) => Ok (entry_listed lo nt (last rest "") s2)
+                | GVal (Leaf LT _) => Ok false
+                | GVal (Leaf LS _) => Raise EUnmodelled
+                | GRaise e => Raise e
+                end
+            end
+        end
+      else Raise EOther
+  end.
+
 (* td.keys(include_nested, leaves_only, is_leaf).__contains__ : the fast path of TensorDict.keys (no flag, default
    is_leaf) hands out a _StringKeys, every other combination a _TensorDictKeysView *)
 Definition keys_contains (inc lo nt : bool) (k : pykey) (es : ents) : res bool :=
-  if negb inc && negb lo && negb nt then skeys_contains k es else view_contains inc k es.
+  if negb inc && negb lo && negb nt then skeys_contains k es
+  else view_contains_lo inc lo nt (cpp_unravel_to_tuple k) es.
 
 (* TensorDictBase.__contains__ (base.py:520) *)
 Definition td_contains (k : pykey) (es : ents) : res bool :=
@@ -76,7 +108,7 @@ Definition td_contains (k : pykey) (es : ents) : res bool :=
   | KS s => Ok (amem s es)
   | KT _ =>
       match cpp_unravel_key k with
-      | RStr s => if String.eqb s "" then Raise EOther else view_contains_path true [s] es
+      | RStr s => view_contains_path true [s] es
       | RTup [] => Raise EOther
       | RTup l => view_contains_path true l es
       | RRaise => Raise EOther
@@ -127,8 +159,9 @@ Definition pop (k : pykey) (has_default : bool) (es : ents) : ents * res popret 
   pop_path (cpp_unravel_to_tuple k) has_default es.
 
 (* ---------------------------------------------------------------- rename_key_ (_td.py:2608) ---- *)
-(* on the unravelled keys.  The value is stored under the new key first (sharing the object), the old key is deleted
-   afterwards unless the new key is a prefix of the old one. *)
+(* on the unravelled keys.  When the new key lies underneath the old one the entry is detached first (fix of D42);
+   otherwise the value is stored under the new key first (sharing the object) and the old key is deleted afterwards,
+   unless the new key is a prefix of the old one. *)
 Definition keyres_in_keys (r : keyres) (es : ents) : res bool :=
   (* `r in self.keys(include_nested=isinstance(r, tuple))` / `r in self.keys(include_nested=True)` agree on both shapes *)
   match r with
@@ -155,19 +188,25 @@ Definition rename_r (o n : keyres) (safe : bool) (es : ents) : ents * option err
         | GRaise e => (es, Some e)
         | GDef => (es, Some EOther)
         | GVal v =>
-            match (match n with RStr s => Ok (aset s v es) | _ => set_tuple (keyres_path n) v es end) with
+            let oldt := keyres_path o in
+            let newt := keyres_path n in
+            let under := list_string_eqb (firstn (List.length oldt) newt) oldt in
+            match (if under then del_tuple oldt es else Ok es) with
             | Raise e => (es, Some e)
-            | Ok es1 =>
-                let newt := keyres_path n in
-                let keep := match o with
-                            | RTup lo => list_string_eqb (firstn (List.length newt) lo) newt
-                            | _ => false
-                            end in
-                if keep then (es1, None)
-                else match del_tuple (keyres_path o) es1 with
-                     | Ok es2 => (es2, None)
-                     | Raise e => (es1, Some e)
-                     end
+            | Ok es0 =>
+                match (match n with RStr s => Ok (aset s v es0) | _ => set_tuple newt v es0 end) with
+                | Raise e => (es0, Some e)
+                | Ok es1 =>
+                    let keep := match o with
+                                | RTup lo => list_string_eqb (firstn (List.length newt) lo) newt
+                                | _ => false
+                                end in
+                    if under || keep then (es1, None)
+                    else match del_tuple oldt es1 with
+                         | Ok es2 => (es2, None)
+                         | Raise e => (es1, Some e)
+                         end
+                end
             end
         end
     end.
@@ -460,8 +499,8 @@ Definition flatten_out (sep : string) (es : ents) : res ents :=
 
 Definition path_keyres (p : list string) : keyres := match p with [s] => RStr s | _ => RTup p end.
 
-(* _flatten_keys_inplace (base.py:12691): renames one leaf after the other, then excludes the former root keys (D24:
-   root_keys is never pruned because the leaves are tuples, never str) *)
+(* _flatten_keys_inplace (base.py:12750, after the fix of D24/D24b): collect the leaves, exclude every root key, bind
+   each leaf under its flat name; colliding names raise before anything is touched *)
 Fixpoint rename_all (l : list (keyres * keyres)) (safe : bool) (es : ents) : ents * option err :=
   match l with
   | [] => (es, None)
@@ -473,14 +512,11 @@ Fixpoint rename_all (l : list (keyres * keyres)) (safe : bool) (es : ents) : ent
   end.
 
 Definition flatten_in (sep : string) (es : ents) : ents * option err :=
-  let lv := map fst (leaves true [] (Node es)) in
-  let names := map (join sep) lv in
+  let lv := leaves true [] (Node es) in
+  let names := map (fun pv => join sep (fst pv)) lv in
   if has_dup names then (es, Some EKey) else
-  let root_keys := map fst es in
-  match rename_all (combine (map path_keyres lv) (map RStr names)) false es with
-  | (es', Some e) => (es', Some e)
-  | (es', None) => (fold_left (fun acc k => adel k acc) root_keys es', None)
-  end.
+  let emptied := fold_left (fun acc k => adel k acc) (map fst es) es in
+  (fold_left (fun acc nv => aset (fst nv) (snd nv) acc) (combine names (map snd lv)) emptied, None).
 
 (* unflatten_keys(inplace=True) (base.py:12722): only the keys of the root are looked at *)
 Fixpoint unflatten_loop (sep : string) (ks : list string) (es : ents) : ents * option err :=
